@@ -154,7 +154,7 @@ func ruleRoundTable(c *Ctx) {
 	okCarry := strings.HasPrefix(got, wantHead) && strings.HasSuffix(got, carry+"}")
 	c.check(okCarry, "round.carry", ifAdj, "on coefficient overflow: fold guard digit into sticky, sig/10, exp++, re-decide",
 		"round: after the adjustment overflows the coefficient limit the code must fold the old guard digit into the sticky flag, divide by ten, increment the exponent and decide again; found "+got,
-		"C01", "C02", "C03", "C08")
+		funcProps("RoundingMode.round")...)
 	// tsig = sig ± 1 in the two arms
 	nAdd, nSub := 0, 0
 	ast.Inspect(ifAdj, func(n ast.Node) bool {
@@ -170,7 +170,7 @@ func ruleRoundTable(c *Ctx) {
 		}
 		return true
 	})
-	c.check(nAdd == 1 && nSub == 1, "round.step", ifAdj, "adjust +1 adds one unit, -1 subtracts one unit", fmt.Sprintf("round must apply exactly one sig.add64(1) and one sig.sub64(1) (found %d/%d)", nAdd, nSub), "C01", "C02", "C03", "C08")
+	c.check(nAdd == 1 && nSub == 1, "round.step", ifAdj, "adjust +1 adds one unit, -1 subtracts one unit", fmt.Sprintf("round must apply exactly one sig.add64(1) and one sig.sub64(1) (found %d/%d)", nAdd, nSub), funcProps("RoundingMode.round")...)
 	// which arm: if adjust == 1 {... add64} else {... sub64}
 	okArms := false
 	dbgArm := ""
@@ -187,7 +187,7 @@ func ruleRoundTable(c *Ctx) {
 			okArms = a == "(K(1)==L0)" && strings.Contains(th, add) && !strings.Contains(th, sub) && strings.Contains(el, sub) && !strings.Contains(el, add)
 		}
 	}
-	c.check(okArms, "round.arms", ifAdj, "adjust == 1 adds, otherwise subtracts", "round: the +1 arm must add and the other arm subtract: "+dbgArm, "C01", "C02", "C03", "C08")
+	c.check(okArms, "round.arms", ifAdj, "adjust == 1 adds, otherwise subtracts", "round: the +1 arm must add and the other arm subtract: "+dbgArm, funcProps("RoundingMode.round")...)
 	// every path through the adjustment block applies exactly the unit step its sign calls for, never returns
 	// from inside, and moves a zero coefficient to the minimum exponent only when shifting was requested
 	{
@@ -270,10 +270,10 @@ func ruleRoundTable(c *Ctx) {
 			}
 		}
 		c.check(bad == "" && nPaths >= 8, "round.paths", ifAdj, fmt.Sprintf("every path through the adjustment block applies the unit step of its sign and stays inside (%d paths over adjust × shift × zero)", nPaths),
-			"round: "+bad, "C01", "C02", "C03", "C08")
+			"round: "+bad, funcProps("RoundingMode.round")...)
 	}
 	okRet := len(ret.Results) == 2 && p.objOf(ret.Results[0]) == ps[2] && p.objOf(ret.Results[1]) == ps[3]
-	c.check(okRet, "round.ret", ret, "returns (sig, exp)", "round must return (sig, exp)", "C01", "C02", "C03", "C08")
+	c.check(okRet, "round.ret", ret, "returns (sig, exp)", "round must return (sig, exp)", funcProps("RoundingMode.round")...)
 }
 
 // roundSpec is the rounding definition (DESIGN.md Appendix B): the discarded
